@@ -29,6 +29,8 @@ ASSUMPTIONS = ["exact zeros are demanded (no tolerance): a dead branch is comput
 
 
 def gen_fn(rng):
+    if rng.random() < 0.1:
+        return gen.mux_failover(rng)
     d = gen.gen_system(rng, phases=0.7, p_neg_src_rs=0.0, max_nodes=16, p_micro=0.15)
     srcs = [c for c in d["comps"] if c["kind"] == "source"]
     if rng.random() < 0.35:
